@@ -617,6 +617,10 @@ def run(ctx):
 
     # ---------------------------------------------------------------- 2. errors defer
     r2 = rep.rule('C11.2-errors-defer', 'R-TABLE', 'qmail-lspawn report(): K only for exit 0; D only for 100, QLX_EXECHARD and unlisted codes; every other QLX_*, 111, 71, 74, 75 and a crash give Z (all 256 statuses x crashed)')
+    # the status macros every verdict on a child process goes through (wait.h): as functions of the status word
+    from rules import libtab as _lt
+    for inst_, v_ in sorted(_lt.waitmacro_sites(db, 'qmail-lspawn.c').items()):
+        r2.check(v_[0], inst_, v_[1], v_[2], v_[3])
     u = db.unit('qmail-lspawn.c')
     qlx = {k: u.macro_int(k) for k in u.macros if k.startswith('QLX_')}
     if len(qlx) < 10:
